@@ -134,6 +134,12 @@ def run_case(case):
         legacy = os.path.join(ddir, "peewee-sqlite" + ("-testing" if testing else "") + ".v2.db")
         if not os.path.isfile(legacy):
             raise RuntimeError(f"harness: legacy file not where expected: {os.listdir(ddir)}")
+        # a legacy file is one that an OLDER version wrote: rollback-journal mode, whatever today's PeeweeStorage would choose
+        import sqlite3 as _sq
+
+        c_ = _sq.connect(legacy)
+        c_.execute("PRAGMA journal_mode=DELETE")
+        c_.close()
         sha_before = _sha(legacy)
         rows_before = stores.fresh_dump(legacy)
         with sut("SqliteStorage(testing) next to a legacy database (migration)"):
